@@ -7,7 +7,9 @@
 
    and appends events to a trace.
 
-   * if/elif/else runs the first branch whose guard is true;
+   * if/elif/else evaluates the guards in order and runs the first branch whose guard is
+     true; a guard (loop condition, iterated expression) that raises an error completes the
+     whole statement with that error at once: no later guard is evaluated, no branch runs;
    * a loop runs its body once per element (condition loop: once per time the condition
      holds; range: from, from+step, ... up to and including the end, in the direction from
      start to end; list: per element; map: per key, keys in string order);  `break` ends the
@@ -49,6 +51,20 @@ Definition spre (t : trace) (r : result) : result :=
   | Some (t', c) => Some (t ++ t', c)
   end.
 
+Definition ety_of (k : errk) : ety :=
+  match k with KUser t => EUser t | KRuntime => EUnknownConstruct end.
+
+(* evaluating a guard: what it logs, and whether it holds or raises *)
+Inductive gres : Type := GHolds (b : bool) | GRaises (e : ety).
+
+Definition sguard (g : guard) : trace * gres :=
+  match g with
+  | GBool b => ([], GHolds b)
+  | GEval n GTrue => ([EvMark n], GHolds true)
+  | GEval n GFalse => ([EvMark n], GHolds false)
+  | GEval n (GFail k) => ([EvMark n], GRaises (ety_of k))
+  end.
+
 Section Combinators.
   Variable ex : stmt -> result.           (* execution of one statement (one level less fuel) *)
 
@@ -63,10 +79,32 @@ Section Combinators.
       end
     end.
 
-  Fixpoint sif (brs : list (bool * block)) (els : option block) : result :=
+  Fixpoint sif (brs : list (guard * block)) (els : option block) : result :=
     match brs with
     | [] => match els with Some b => sblock b | None => Some ([], Normal) end
-    | (g, b) :: brs' => if g then sblock b else sif brs' els
+    | (g, b) :: brs' =>
+      match sguard g with
+      | (t, GHolds true) => spre t (sblock b)
+      | (t, GHolds false) => spre t (sif brs' els)
+      | (t, GRaises e) => Some (t, Raised e)
+      end
+    end.
+
+  (* condition loop: [run] is one round; the condition holds n times; evaluated once more it
+     is false ([fail] = None) or logs m and raises *)
+  Fixpoint scond (run : result) (fail : option (nat * errk)) (n : nat) : result :=
+    match n with
+    | O => match fail with
+           | None => Some ([], Normal)
+           | Some (m, k) => Some ([EvMark m], Raised (ety_of k))
+           end
+    | S n' =>
+      match run with
+      | None => None
+      | Some (t, Normal) | Some (t, Continued) => spre t (scond run fail n')
+      | Some (t, Broke) => Some (t, Normal)
+      | Some (t, c) => Some (t, c)
+      end
     end.
 
   (* one loop over a finite sequence of elements *)
@@ -182,7 +220,8 @@ Fixpoint sexec (fuel : nat) (s : stmt) : result :=
     | Break => Some ([], Broke)
     | Continue => Some ([], Continued)
     | If brs els => sif ex brs els
-    | LoopCond n body => sforeach (fun _ : unit => sblock ex body) (repeat tt n)
+    | LoopCond n fail body => scond (sblock ex body) fail n
+    | LoopSrc n k _ => Some ([EvMark n], Raised (ety_of k))
     | LoopRange from to step body =>
       srange f (fun v => spre [EvIter v] (sblock ex body)) from to step from
     | LoopList xs body => sforeach (fun v => spre [EvIter v] (sblock ex body)) xs
